@@ -105,7 +105,7 @@ func (s *SimSink) Write(p []byte) (int, error) {
 		s.R.Fail("sink saw overlapping calls", fmt.Sprintf("sink %s: Write by %s began while another call was in progress", s.Name, call.Task))
 	}
 	if s.Delay > 0 {
-		time.Sleep(s.Delay)
+		s.R.sleepIn(s.Delay)
 		s.Fired["slow-call"]++
 	}
 	snap := append([]byte(nil), p...)
@@ -202,7 +202,7 @@ func (s *SimSink) Sync() error {
 		s.R.Fail("sink saw overlapping calls", fmt.Sprintf("sink %s: Sync by %s began while another call was in progress", s.Name, call.Task))
 	}
 	if s.Delay > 0 {
-		time.Sleep(s.Delay)
+		s.R.sleepIn(s.Delay)
 		s.Fired["slow-call"]++
 	}
 	var err error
